@@ -1200,6 +1200,7 @@ async fn load_targets(
             max_targets_size,
             delegations,
             datastore,
+            &[],
         )
         .await?;
     }
@@ -1211,6 +1212,7 @@ async fn load_targets(
 }
 
 // Follow the paths of delegations starting with the top level targets.json delegation
+#[allow(clippy::too_many_arguments)]
 #[async_recursion]
 async fn load_delegations(
     transport: &dyn Transport,
@@ -1220,10 +1222,18 @@ async fn load_delegations(
     max_targets_size: u64,
     delegation: &mut Delegations,
     datastore: &Datastore,
+    ancestors: &[String],
 ) -> Result<()> {
     let mut delegated_roles: HashMap<String, Option<Signed<crate::schema::Targets>>> =
         HashMap::new();
     for delegated_role in &delegation.roles {
+        // A role that (directly or indirectly) delegates to itself would be loaded forever.
+        ensure!(
+            !ancestors.contains(&delegated_role.name),
+            error::DelegationCycleSnafu {
+                name: delegated_role.name.clone(),
+            }
+        );
         // find the role file metadata
         let role_meta = snapshot
             .signed
@@ -1293,6 +1303,8 @@ async fn load_delegations(
                 })?;
         if let Some(targets) = &mut delegated_role.targets {
             if let Some(delegations) = &mut targets.signed.delegations {
+                let mut chain = ancestors.to_vec();
+                chain.push(delegated_role.name.clone());
                 load_delegations(
                     transport,
                     snapshot,
@@ -1301,6 +1313,7 @@ async fn load_delegations(
                     max_targets_size,
                     delegations,
                     datastore,
+                    &chain,
                 )
                 .await?;
             }
